@@ -1,11 +1,14 @@
-"""C10 — template parsing is total (totality clause only)."""
+"""C10 — template parsing is total; two structural clauses of the fidelity half."""
 from .. import common as K
 from .. import ledger as Lg
 
-EXPLANATION = ("Decides totality only: no unaudited panic edge (assert terminator, panicking std API, diverging call) is "
+EXPLANATION = ("Decides totality: no unaudited panic edge (assert terminator, panicking std API, diverging call) is "
                "reachable from ProgressStyle::with_template / ProgressStyle::template; the parser's own state machine is "
-               "exhaustive by rustc's match checking (the catch-all arm returns Err).")
-UNDECIDED = ("The fidelity clause (rendering = in-order concatenation of literals and expansions) is string equality over all "
+               "exhaustive by rustc's match checking (the catch-all arm returns Err). Of the fidelity half only two structural "
+               "necessary conditions: rendered text is cut into rows at every '\\n' by a splitter that keeps blank and trailing "
+               "segments (R-BAR-ROWS-SPLIT: one output line per template line), and every placeholder starts from an empty scratch "
+               "buffer (R-ARM-BUFFER-FRESH: nothing rendered earlier is emitted again in front of an expansion).")
+UNDECIDED = ("The rest of the fidelity clause (rendering = in-order concatenation of literals and expansions) is string equality over all "
              "grammar words and is not decided. Observed while reading, not decidable here: \"a{ b\" parses to the literal \"{a b\".")
 
 ENTRIES = [r"style::ProgressStyle::with_template", r"style::ProgressStyle::template"]
@@ -19,3 +22,11 @@ def run(ctx, crate):
     cons = [x for x in K.constructions(crate, "style::TemplateError") if x[0].name in sc]
     ctx.check(bool(cons), "R-PARSE-TOTAL", "reports-errors", "style::Template::from_str_with_tab_width", "src/style.rs",
               "the parser constructs TemplateError for rejected input", "the parser no longer reports TemplateError", crate.config)
+    # one structural clause of the fidelity half ("one output line per template line"): rendered text is cut into rows at
+    # every '\n' and nowhere else, by a splitter that keeps blank and trailing segments
+    from .. import draw_rules as D
+    D.rule_bar_rows_split(ctx, crate)
+    # and of "the rendering is the in-order concatenation of literal text and placeholder expansions": a placeholder
+    # starts from an empty scratch buffer (nothing rendered earlier is emitted a second time in front of it)
+    from .c11 import rule_arm_buffer_fresh
+    rule_arm_buffer_fresh(ctx, crate)
